@@ -62,7 +62,7 @@ func runHistory(ft fataler, f pools.Factory, ops []pools.Op, opt runOpt) (*model
 	}
 	ep, _ := p.(pools.Epocher)
 	touched := map[string]uint64{}
-	lapsedVal := map[string]bool{} // values whose holder's lease lapsed (not released) since the last reload: their store record may linger
+	lapsedVal := map[string]bool{} // values whose holder's lease lapsed (not released) at some point: that holder's store record may linger
 	epoch := func() uint64 {
 		if ep != nil {
 			return ep.Epoch()
@@ -181,7 +181,7 @@ func runHistory(ft fataler, f pools.Factory, ops []pools.Op, opt runOpt) (*model
 					touched[x] = epoch()
 				}
 				m.freed = map[string]string{}
-				lapsedVal = map[string]bool{}
+				// lapsedVal is kept: a stale record that lost (or won) the conflict stays in the store across reloads
 			}
 		case pools.OpRemoteSet, pools.OpRemoteDel:
 			rm, ok := p.(pools.Remote)
